@@ -10,6 +10,7 @@ import (
 
 	"verifharness/core"
 	"verifharness/inproc"
+	"verifharness/lnmodel"
 	"verifharness/refcrypto"
 	"verifharness/wworld"
 
@@ -263,6 +264,24 @@ func runC08(r *core.Run) {
 				_, err := wworld.Restore(dir, wn.Mnemonic(), urls)
 				s.Log = append(s.Log, fmt.Sprintf("restore %s from mnemonic -> %v", wn.Name, err))
 				inspect()
+				// the restored wallet (its proofs carry no DLEQ) takes the place of the original
+				// one and goes on: from now on it holds both kinds of proofs
+				if err == nil {
+					wn.Close()
+					rn, err := w.AddWalletDir(wn.Name+"r", dir, 0)
+					if err == nil {
+						name := rn.Name
+						rn.OnProofs = func(m string, ps cashu.Proofs) { known.fromProofs(ps, "store "+name+" "+m) }
+						w.Wallets = w.Wallets[1:] // drop the closed original (index 0); AddWalletDir appended the restored one
+						s.Held = nil              // tokens of the replaced wallet stay valid but are not tracked further
+						// funds arriving after the restore carry DLEQ; then spend everything at once
+						rn.Fund(8, rn.DefaultURL)
+						if bal := rn.ByMint()[rn.DefaultURL]; bal > 40 {
+							s.OpMelt(rn, bal*9/10-2, rn.DefaultURL, lnmodelSucceeded())
+						}
+						inspect()
+					}
+				}
 			}
 		}
 		known.mu.Lock()
@@ -287,3 +306,5 @@ func runC08(r *core.Run) {
 		r.Inconclusive("fewer than 100 blinding factors known")
 	}
 }
+
+func lnmodelSucceeded() lnmodel.PayPlan { return lnmodel.PayPlan{Answer: lnmodel.ASucceeded} }
